@@ -188,14 +188,16 @@ def goQuoteC (c : Char) : String :=
 /-- a Go interpreted string literal -/
 def goQuote (s : String) : String := "\"" ++ String.join (s.toList.map goQuoteC) ++ "\""
 
+/-- Names are those of the normal form of `translate/gateskel`: `r1` = the (first) local that
+receives replies, `p1` = first parameter, `v1` = first other local. -/
 def Var.show : Var → String
-  | .out => "out" | .lines => "lines"
+  | .out => "r1" | .lines => "p1"
 
 def TExp.show : TExp → String
   | .v x => x.show
-  | .name => "name"
-  | .bannerLines => "bannerLines"
-  | .re => "re"
+  | .name => "p1"
+  | .bannerLines => "v1"
+  | .re => "p1.CheckBanner.String()"
   | .reply => "<reply>"
   | .lit s => goQuote s
   | .trimSuffix e suf => "strings.TrimSuffix(" ++ e.show ++ ", " ++ goQuote suf ++ ")"
@@ -215,6 +217,7 @@ inductive Pred
   | bannerUnset                        -- cfg.CheckBanner == nil
   | bannerNoMatch (e : TExp)           -- rx.FindStringIndex(e) == nil
   | cursorSet                          -- cursor != ""
+  | idHasPrefix (pre : String)         -- strings.HasPrefix(result.Id, pre)   (loop variable of forIds)
   /-- a named Boolean (result of a local closure); printed as its name -/
   | val (label : String) (p : Pred)
   /-- a condition on decoded (non-text) data; printed as its label -/
@@ -234,6 +237,7 @@ def Pred.eval (pe : PEnv) : Pred → Bool
     | some r => !r.search (e.eval pe)
     | none => false
   | .cursorSet => pe.cursor != ""
+  | .idHasPrefix pre => pre.toList.isPrefixOf pe.cursor.toList
   | .val _ p => p.eval pe
   | .opaque _ f => f pe.cfg pe.reply pe.devName
 
@@ -245,12 +249,22 @@ def Pred.show : Pred → String
   | .not p => "!" ++ p.show
   | .and p q => p.show ++ " && " ++ q.show
   | .or p q => p.show ++ " || " ++ q.show
-  | .bannerSet => "rx != nil"
-  | .bannerUnset => "cfg.CheckBanner == nil"
-  | .bannerNoMatch e => "rx.FindStringIndex(" ++ e.show ++ ") == nil"
-  | .cursorSet => "cursor != \"\""
+  | .bannerSet => "p2.CheckBanner != nil"
+  | .bannerUnset => "p1.CheckBanner == nil"
+  | .bannerNoMatch e => "p2.CheckBanner.FindStringIndex(" ++ e.show ++ ") == nil"
+  | .cursorSet => "v1 != \"\""
+  | .idHasPrefix pre => "strings.HasPrefix(v4.Id, " ++ goQuote pre ++ ")"
   | .val label _ => label
   | .opaque label _ => label
+
+/-- printed form of the negation (comparisons flip, as in the normal form of the translator) -/
+def Pred.showNeg : Pred → String
+  | .cursorSet => "v1 == \"\""
+  | .ne a b => a.show ++ " == " ++ b.show
+  | .not p => p.show
+  | .bannerSet => "p2.CheckBanner == nil"
+  | .bannerUnset => "p1.CheckBanner != nil"
+  | p => "!" ++ p.show
 
 inductive Prog
   | nop
@@ -430,27 +444,27 @@ def skel (d : Nat) : Prog → List Item
   | .assign x decl silent e =>
     if silent then [] else [(d, "assign", x.show ++ (if decl then " := " else " = ") ++ e.show)]
   | .collect label => [(d, "assign", label)]
-  | .setName _ => [(d, "assign", "devName = name")]
+  | .setName _ => []
   | .setCur _ => []
-  | .check p ik it _ => [(d, "if", p.show), (d + 1, ik, it)]
+  | .check p ik it _ => [(d, "guard", p.show), (d + 1, ik, it)]
   | .record p atxt _ _ => [(d, "if", p.show), (d + 1, "assign", atxt)]
   | .crash _ _ => []
   | .ite p t e =>
     (d, "if", p.show) :: skel (d + 1) t ++
       (match skel (d + 1) e with | [] => [] | l => (d, "else", "") :: l)
-  | .early p it rest => (d, "if", p.show) :: (d + 1, "ret", it) :: skel d rest
-  | .ifChanges rest =>
-    (d, "call", "HasChanges") :: (d, "if", "!s.HasChanges()") :: (d + 1, "ret", "nil") :: skel d rest
-  | .call fn _ => [(d, "call", fn)]
+  | .early p it rest => (d, "guard", p.show) :: (d + 1, "ret", it) :: skel d rest
+  | .ifChanges rest => (d, "guard", "!recv.HasChanges()") :: (d + 1, "ret", "nil") :: skel d rest
+  | .call fn _ => if fn == "" then [] else [(d, "call", fn)]
   | .defn name body => (d, "closure", name) :: skel (d + 1) body
   | .note k t => [(d, k, t)]
   | .block p => skel (d + 1) p
   | .attempt b e => skel d b ++ skel d e
-  | .gate _ => [(d, "call", "GetErrUnmanaged"), (d, "if", "l != nil"), (d + 1, "ret", "l[0]")]
-  | .warnU => [(d, "call", "GetErrUnmanaged"), (d, "for", "range s.GetErrUnmanaged()"),
-               (d + 1, "call", "Warning")]
+  | .gate _ => [(d, "call", "GetErrUnmanaged"), (d, "guard", "v1 != nil"), (d + 1, "ret", "v1[0]")]
+  | .warnU => [(d, "call", "GetErrUnmanaged"), (d, "for", "range recv.GetErrUnmanaged()"),
+               (d + 1, "warn", "")]
   | .forPlan _ _ => []
-  | .loop label b _ => (d, "for", label) :: skel (d + 1) b
+  | .loop label b again =>
+    (d, "for", label) :: skel (d + 1) b ++ [(d + 1, "guard", again.showNeg), (d + 2, "break", "")]
   | .forIds label _ b => (d, "for", label) :: skel (d + 1) b
 
 end NA.Gate
